@@ -169,6 +169,15 @@ def stepLine (d : DState) (n : Nat) (line : String) : IO (DState × List String)
     | ["unlock", g] => let (d', ls) := applyOutcome d (s.setGroupLock (X g) false); return (d', hd :: ls)
     | ["frame", v] => let (d', ls) := applyOutcome d (s.frame fops (d.getVar v)); return (d', hd :: ls)
     | ["frame", v, idx] => let (d', ls) := applyOutcome d (s.frame fops (d.getVar v) (parseNat! idx)); return (d', hd :: ls)
+    | "frameself" :: src :: rest =>
+      let o : Outcome C3D := match atIdx s.frames (parseNat! src) with
+        | .ok f => (match rest with
+          | [idx] => s.frame fops f (parseNat! idx)
+          | _ => s.frame fops f)
+        | .throw e => .throw e s
+        | .ub k => .ub k
+      let (d', ls) := applyOutcome d o
+      return (d', hd :: ls)
     | ["point", nm] => let (d', ls) := applyOutcome d (s.point fops (X nm)); return (d', hd :: ls)
     | ["analog", nm] => let (d', ls) := applyOutcome d (s.analog fops (X nm)); return (d', hd :: ls)
     | "pointcol" :: vs => let (d', ls) := applyOutcome d (s.pointCols fops (vs.map d.getVar)); return (d', hd :: ls)
